@@ -1,5 +1,5 @@
 (* C06, part 2 - method dispatch and the endpoint of the data connection, over the protocol model. *)
-From LibFtp Require Import Bytes Decimal Reply Endpoint Ascii DataConn DataConn_Proofs Client Client_Proofs Login_Proofs Transfer_Proofs Transfer_More.
+From LibFtp Require Import Bytes Decimal Reply Endpoint Ascii DataConn DataConn_Proofs Client Client_Proofs Login_Proofs Transfer_Proofs Transfer_More Dispatch_Global.
 Local Open Scope N_scope.
 
 (* the method is selected by transfer mode and RFC 2428 setting; passive: parse, then connect, then the transfer
@@ -72,3 +72,20 @@ Theorem C06_active_listens_and_accepts : forall w path r1 r2 rest x1 x2 x3 line,
       [DNewObj; DListen; DAcceptOk; DTcpShutdown; DClose; DAccClose].
 Proof. exact download_active_complete. Qed.
 Print Assumptions C06_active_listens_and_accepts.
+
+(* ------------------------------------------------------------------ every call, every state, every server *)
+(* [okev m r e]: if the event e is a command line on the wire, it is allowed under the configuration (m, r): the bare line
+   EPSV only for passive + RFC 2428, PASV only for passive without, a line starting "EPRT " only for active + RFC 2428,
+   one starting "PORT " only for active without. The command a call writes to set up its data connection is the one the
+   configuration at the time of the call prescribes - whatever the address family of the control connection, the replies
+   of the server and the history of the session (the raw command interface with the caller's own verb excepted). *)
+Theorem C06_method_by_configuration_every_call : forall a w, not_raw_setup a ->
+  exists tr, w_trace (snd (step w a)) = w_trace w ++ tr /\
+    Forall (okev (c_mode (w_cfg w)) (c_rfc2428 (w_cfg w))) tr.
+Proof. exact step_method_by_configuration. Qed.
+Print Assumptions C06_method_by_configuration_every_call.
+
+Example C06_dispatch_example :
+  first_setup Passive true = [EPSV_] /\ first_setup Passive false = [PASV_] /\
+  first_setup Active true = [EPRT_] /\ first_setup Active false = [PORT_].
+Proof. exact dispatch_example. Qed.
